@@ -32,11 +32,14 @@ def d3_scale_bilinear(domain, _range, uninterpolate, interpolate):
 
 
 def d3_uninterpolateNumber(a, b):
-    return lambda x: (x - a) / (b - a)
+    # a degenerate domain maps everything to the start of the range (as d3)
+    b = (b - a) or float("inf")
+    return lambda x: (x - a) / b
 
 
 def d3_uninterpolateClamp(a, b):
-    return lambda x: max(0, min(1, (x - a) / (b - a)))
+    b = (b - a) or float("inf")
+    return lambda x: max(0, min(1, (x - a) / b))
 
 
 def d3_interpolate(a, b):
@@ -140,7 +143,8 @@ def d3_scale_linearTicks(domain, m):
 def d3_scale_linearTickFormat(domain, m, fmt=None):
     therange = d3_scale_linearTickRange(domain, m)
     # format not None is not implemented
-    decimals = max(0, d3_scale_linearPrecision(therange[2]))
+    # a degenerate domain has step 0 (and no ticks to format)
+    decimals = max(0, d3_scale_linearPrecision(therange[2])) if therange[2] else 0
     fmt = "." + str(decimals) + "f"
     fmtstr = "{:%s}" % fmt
     return lambda x: fmtstr.format(x)
